@@ -350,6 +350,26 @@ static void run_builder() {
     vf::space("crs_builder: all 65536 patterns 4x4");
 }
 
+static void run_perm4() {
+    if (vf::thorough()) {
+        for (uint64_t mask = 0; mask < 65536; ++mask) {
+            g_key = vf::KS() << "tup4p|4|" << mask;
+            if (!vf::take([&] { return g_key; })) continue;
+            auto s0 = make_src<double>(4, 4, mask);
+            for (int r = 0; r < 4; ++r) {
+                int w = (int)(s0.ptr[r + 1] - s0.ptr[r]); std::vector<int> p(w); for (int q = 0; q < w; ++q) p[q] = q;
+                while (std::next_permutation(p.begin(), p.end())) {
+                    auto s = s0; permute_row(s, r, p); vf::nontrivial(vf::hstr(g_key));
+                    tuple_flavours<double, long, long, size_t>(s, "double"); tuple_flavours<double, unsigned, unsigned, int>(s, "double");
+                    zero_copy_case<long, long>(s); zero_copy_direct_case<int, int>(s);
+                    RowBuilder rb{&s}; check_adapter<double>("crs_builder", adapter::make_matrix(rb), s, true);
+                }
+            }
+        }
+        vf::space("tuple / zero_copy / zero_copy_direct / crs_builder: all 65536 patterns 4x4 x every permutation of one row at a time");
+    }
+}
+
 // ---- block_matrix / unblock_matrix ------------------------------------------------------------------------------------------------
 template <int B, class X>
 static void block_check(const std::string &what, const X &A, const Src<double> &s) {
@@ -430,11 +450,16 @@ static void run_block() {
 }
 
 // ---- reorder (exact view identities) -----------------------------------------------------------------------------------------------
-template <bool rev> static void reorder_case(const Src<double> &s, const char *nm) {
+// an "ordering" that returns whatever permutation the harness wants (the adapter accepts any ordering class)
+struct given_order {
+    static std::vector<int>& P() { static std::vector<int> p; return p; }
+    template <class Matrix, class Vector> static void get(const Matrix&, Vector &perm) { for (size_t i = 0; i < P().size(); ++i) perm[i] = P()[i]; }
+};
+template <class Ordering> static void reorder_case(const Src<double> &s, const char *nm) {
     int n = s.m;
     std::string t = std::string("reorder.") + nm;
     size_t nn = n; auto A = std::tie(nn, s.ptr, s.col, s.val);
-    adapter::reorder<reorder::cuthill_mckee<rev>> perm(A);
+    adapter::reorder<Ordering> perm(A);
     // recover perm through the vector view
     std::vector<double> id(n); for (int i = 0; i < n; ++i) id[i] = i;
     auto pv = perm(id);
@@ -470,9 +495,14 @@ static void run_reorder() {
             if (!vf::take([&] { return g_key; })) continue;
             auto s = make_src<double>(n, n, mask);
             if (s.col.size() > 1) vf::nontrivial(vf::hstr(g_key));
-            reorder_case<false>(s, "cuthill_mckee"); reorder_case<true>(s, "reverse_cuthill_mckee");
+            reorder_case<reorder::cuthill_mckee<false>>(s, "cuthill_mckee"); reorder_case<reorder::cuthill_mckee<true>>(s, "reverse_cuthill_mckee");
+            // Cuthill-McKee only ever produces 2 of the 24 permutations for n = 4 (both involutions): drive the adapter with every permutation
+            std::vector<int> &P = given_order::P(); P.resize(n); for (int i = 0; i < n; ++i) P[i] = i;
+            long np = 0;
+            do { reorder_case<given_order>(s, "given_permutation"); ++np; } while (std::next_permutation(P.begin(), P.end()));
+            vf::count("reorder.given_permutations", np);
         }
-        vf::space(vf::KS() << "reorder adapter (Cuthill-McKee and reverse): all patterns " << n << "x" << n << ": permutation bijective, reordered rows, (PAP^T)(Px) == P(Ax)");
+        vf::space(vf::KS() << "reorder adapter (Cuthill-McKee, reverse CM, and every one of the n! permutations as a given ordering): all patterns " << n << "x" << n << ": permutation bijective, reordered rows, (PAP^T)(Px) == P(Ax)");
     }
 }
 
@@ -567,6 +597,7 @@ int main(int argc, char **argv) {
     if (vf::section("eig")) run_eigen();
     if (vf::section("ubl")) run_ublas();
     if (vf::section("bld")) run_builder();
+    if (vf::section("tup4p")) run_perm4();
     if (vf::section("blk") || vf::section("blku")) run_block();
     if (vf::section("reo")) run_reorder();
     if (vf::section("scl")) run_scale();
